@@ -363,7 +363,7 @@ def real_snap_or_const(x):
     return _num_snapshot(x)
 
 
-def judge_real(ctx, got, ins, grads, f, mech, what):
+def judge_real(ctx, got, ins, grads, f, mech, what, scale_floor=0.0):
     if not is_obs(got):
         ctx.ev()
         ctx.violation(mech + ':result-type', {'what': what, 'type': type(got).__name__})
@@ -376,7 +376,7 @@ def judge_real(ctx, got, ins, grads, f, mech, what):
     ref = dense.propagate(snaps, grads, f)
     chains, union = dense.union_lists(snaps)
     wmax = max([1.0] + list(dense.weights(snaps, chains, union).values()))
-    scale = dense.delta_scale(snaps, grads) * wmax
+    scale = max(dense.delta_scale(snaps, grads) * wmax, scale_floor)
     # central value: rounding of an evaluation whose terms cancel (imaginary part of a complex quotient, a - b with a ~ b) is
     # proportional to the size of the terms sum_k |g_k v_k|, not to the result
     vscale = max(abs(ref['value']), abs(float(got.value)), float(sum(abs(g) * abs(s_['value']) for g, s_ in zip(grads, snaps))))
@@ -436,6 +436,15 @@ def judge_complex(ctx, got, a, b, cf, cdf, mech, what):
         sim = [sa.imag, sa.real, sb.imag, sb.real]
     except (ZeroDivisionError, ValueError, OverflowError):
         sre, sim = gre, gim
+    # rounding of complex arithmetic is relative to the moduli of the complex derivatives, not to their real or imaginary parts
+    # (which may vanish or cancel when the library evaluates a quotient as 1 / (y / z)): floor of the fluctuation scale
+    obs_idx = [k for k in range(4) if is_obs(ins[k])]
+    floor = 0.0
+    if obs_idx:
+        sn_ = [real_snap_or_const(ins[k]) for k in obs_idx]
+        mags = [abs(fa), abs(fa), abs(fb), abs(fb)]
+        ch_, un_ = dense.union_lists(sn_)
+        floor = dense.delta_scale(sn_, [mags[k] for k in obs_idx]) * max([1.0] + list(dense.weights(sn_, ch_, un_).values()))
     for part, g, f, nm, gs in ((got.real, gre, fre, 're', sre), (got.imag, gim, fim, 'im', sim)):
         if is_obs(part):
             # an input whose derivative vanishes identically (e.g. the imaginary part in the real
@@ -450,7 +459,7 @@ def judge_complex(ctx, got, a, b, cf, cdf, mech, what):
                         full[kk] = vv
                     return _f(full)
                 tt = ctx.trial()
-                judge_real(tt, part, [ins[k] for k in keep], [g[k] for k in keep], fk, mech + ':' + nm, what)
+                judge_real(tt, part, [ins[k] for k in keep], [g[k] for k in keep], fk, mech + ':' + nm, what, scale_floor=floor)
                 return tt
             t = trial_with(keep0)
             if t.violations:
@@ -773,6 +782,39 @@ def case_complex_degenerate(ctx, rng, tier, op):
     judge_complex(ctx, got, a, b, cf, cdf, 'L2c:%s:degenerate' % op, '%s %s zero-mean part %d' % (op, order, which))
 
 
+def case_complex_array(ctx, rng, tier, op, position):
+    """A complex observable combined with a numpy array (of floats, of complex numbers, of real observables) in either position:
+    the operation acts element by element."""
+    pyop, cf, cdf = CBINOPS[op]
+    pf = PartFactory(rng, tier)
+    z = pf.cobs()
+    k = int(rng.integers(1, 4))
+    content = str(rng.choice(['float', 'complex', 'Obs']))
+    if content == 'float':
+        elems = [float(rng.uniform(0.5, 3.0)) * float(rng.choice([-1, 1])) for _ in range(k)]
+        arr = np.array(elems)
+    elif content == 'complex':
+        elems = [complex(float(rng.uniform(0.5, 2.0)) * rng.choice([-1, 1]), float(rng.uniform(0.5, 2.0)) * rng.choice([-1, 1])) for _ in range(k)]
+        arr = np.array(elems)
+    else:
+        elems = [pf.obs(pf.sdom()) for _ in range(k)]
+        arr = np.array(elems, dtype=object)
+    if op == '/' and position == 'left' and abs(cval(parts(z))) < 0.2:
+        raise Skip()
+    got = pyop(z, arr) if position == 'right' else pyop(arr, z)
+    ctx.count('L2_applications')
+    ctx.count('L2c_array_partners')
+    ctx.cell('L2c', op, 'CObs.ndarray[%s]' % content if position == 'right' else 'ndarray[%s].CObs' % content)
+    mech = 'L2c:%s:ndarray-%s' % (op, position)
+    if not isinstance(got, np.ndarray) or got.shape != arr.shape:
+        ctx.ev()
+        ctx.violation(mech + ':result-type', {'type': type(got).__name__, 'shape': getattr(got, 'shape', None), 'content': content})
+        return
+    for g, y in zip(got, elems):
+        a, b = (z, y) if position == 'right' else (y, z)
+        judge_complex(ctx, g, a, b, cf, cdf, mech, '%s %s array of %s' % (op, position, content))
+
+
 def case_pow_complex(ctx, rng, tier, combo):
     """Obs ** complex and complex ** Obs (quantifier: ** with complex operands in either position)."""
     o, _ = make_operand(rng, (0.5, 3.0), tier)
@@ -789,10 +831,17 @@ def case_pow_complex(ctx, rng, tier, combo):
 
 def case_cobs_unary(ctx, rng, tier):
     z = PartFactory(rng, tier).cobs(degenerate=False)
-    which = str(rng.choice(['neg', 'conj', 'abs']))
+    which = str(rng.choice(['neg', 'conj', 'abs', 'pos']))
     ctx.count('L2_applications')
     ctx.cell('L2c', which)
-    if which == 'neg':
+    if which == 'pos':
+        got = +z
+        if not is_cobs(got):
+            ctx.violation('L2c:pos:result-type', type(got).__name__)
+            return
+        judge_real(ctx, got.real, [z.real], [1.0], lambda v: v[0], 'L2c:pos:re', 'pos')
+        judge_real(ctx, got.imag, [z.imag], [1.0], lambda v: v[0], 'L2c:pos:im', 'pos')
+    elif which == 'neg':
         got = -z
         if not is_cobs(got):
             ctx.violation('L2c:neg:result-type', type(got).__name__)
@@ -1081,7 +1130,9 @@ def case_explicit(ctx, rng, tier, which):
     if which == 'autograd_multi':
         pe.derived_observable(lambda x, **kw: anp.array([x[0] * anp.sin(x[1]), x[0] / x[1], anp.exp(x[0] - x[1])]), [a, b])
     elif which == 'num_grad':
-        pe.derived_observable(lambda x, **kw: x[0] ** 2 * np.log(x[1]) + np.cos(x[0] * x[1]), [a, b], num_grad=True)
+        opts = [{}, {'base_step': 0.05}, {'step_ratio': 2.0}, {'base_step': 0.2, 'step_ratio': 3.0}][int(rng.integers(0, 4))]
+        ctx.cell('L1x', 'num_grad-options', sorted(opts))
+        pe.derived_observable(lambda x, **kw: x[0] ** 2 * np.log(x[1]) + np.cos(x[0] * x[1]), [a, b], num_grad=True, **opts)
     elif which == 'man_grad':
         pe.derived_observable(lambda x, **kw: x[0] ** 2 * x[1], [a, b], man_grad=[2 * a.value * b.value, a.value ** 2])
     elif which == 'matmul':
@@ -1182,6 +1233,8 @@ def plan(tier):
             p.append(('cbin:%s:%s' % (op, combo), 3 * m))
     for op in ('*', '/', '+', '-'):
         p.append(('cdeg:%s' % op, (8 if op in '*/' else 3) * m))
+        for pos in ('left', 'right'):
+            p.append(('carr:%s:%s' % (op, pos), 3 * m))
     p.append(('cpow:Obs.complex', 4 * m))
     p.append(('cpow:complex.Obs', 4 * m))
     p.append(('cun', 8 * m))
@@ -1250,6 +1303,8 @@ def run_case(ctx, kind, idx, rng):
         case_zero_mean(ctx, rng, tier, k[1])
     elif k[0] == 'cdeg':
         case_complex_degenerate(ctx, rng, tier, k[1])
+    elif k[0] == 'carr':
+        case_complex_array(ctx, rng, tier, k[1], k[2])
     elif k[0] == 'scaled':
         case_scaled(ctx, rng, tier, k[1])
     elif k[0] == 'special':
